@@ -511,7 +511,7 @@ func ParseDSL(data string) (*OpenFgaDslListener, *OpenFgaDslErrorListener) {
 		case strings.TrimLeft(line, " ")[0:1] == "#":
 			cleanedLine = ""
 		default:
-			cleanedLine = strings.TrimRight(strings.Split(line, " #")[0], " ")
+			cleanedLine = strings.TrimRight(strings.Split(line, " #")[0], " \t")
 		}
 
 		cleanedLines = append(cleanedLines, cleanedLine)
